@@ -40,7 +40,27 @@ theorem tools_xor (a b : Bytes) : Gen.tools.xor a b = .ok (Pyemv.xor a b) := by
   unfold Gen.tools.xor toBytesLE Pyemv.xor
   simp only [xor_fits a b, if_true, bind, Except.bind, pure, Except.pure]
 
-theorem tools_odd_parity (n : Nat) : Gen.tools.odd_parity n = .ok (oddParity n) := rfl
+theorem tools_odd_parity (n : Nat) : Gen.tools.odd_parity n = oddParity n := rfl
+
+theorem tools_adjust (k : Bytes) : Gen.tools.adjust_key_parity k = .ok (adjustKeyParity k) := by
+  unfold Gen.tools.adjust_key_parity adjustKeyParity
+  simp only [tools_odd_parity, pure, Except.pure, Except.ok.injEq]
+  apply List.map_congr_left
+  intro b _
+  by_cases h : oddParity b.toNat = 0 <;> simp [h]
+
+theorem tools_kcv (k : Bytes) (n : Nat) : Gen.tools.key_check_digits k n = keyCheckDigits k n := by
+  unfold Gen.tools.key_check_digits keyCheckDigits
+  rfl
+
+theorem tools_cbc (k iv d : Bytes) : Gen.tools.encrypt_tdes_cbc k iv d = encryptTdesCbc k iv d := by
+  unfold Gen.tools.encrypt_tdes_cbc encryptTdesCbc
+  simp only [bind, Except.bind, pure, Except.pure]
+  repeat (first | rfl | split)
+
+theorem tools_ecb (k d : Bytes) : Gen.tools.encrypt_tdes_ecb k d = encryptTdesEcb k d := by
+  unfold Gen.tools.encrypt_tdes_ecb encryptTdesEcb
+  rfl
 
 /-! ### mac -/
 
@@ -56,26 +76,49 @@ theorem mac_pad2 (d : Bytes) (bs : Option Nat) : Gen.mac.pad_iso9797_2 d bs = pa
   simp only [mac_pad1, bind, Except.bind, pure, Except.pure]
   repeat (first | rfl | split)
 
+theorem mac_mac3 (k1 k2 d : Bytes) (pm : Int) (l : Option Nat) : Gen.mac.mac_iso9797_3 k1 k2 d pm l = mac3 k1 k2 d pm l := by
+  unfold Gen.mac.mac_iso9797_3 mac3 padSelect macCore
+  simp only [mac_pad1, mac_pad2, zeros, List.replicate, List.length_cons, List.length_nil, bind, Except.bind, pure, Except.pure]
+  by_cases h1 : pm = 1
+  · subst h1
+    simp only [if_true]
+    cases pad1 d (some 8) with
+    | error e => rfl
+    | ok p =>
+      simp only []
+      repeat (first | rfl | split)
+      all_goals simp_all
+  · by_cases h2 : pm = 2
+    · subst h2
+      simp only [show ¬ ((2 : Int) = 1) by decide, if_false, if_true]
+      cases pad2 d (some 8) with
+      | error e => rfl
+      | ok p =>
+        simp only []
+        repeat (first | rfl | split)
+        all_goals simp_all
+    · simp [h1, h2, throw, throwThe, MonadExceptOf.throw]
+
 /-! ### ac -/
 
 theorem ac_generate_ac (sk d : Bytes) (pt : Option PaddingType) (l : Option Nat) :
     Gen.ac.generate_ac sk d pt l = generateAc sk d pt l := by
   unfold Gen.ac.generate_ac generateAc
   by_cases h : sk.length = 16
-  · simp only [h, ne_eq, not_true_eq_false, if_false, bind, Except.bind, pure, Except.pure]
+  · simp only [h, ne_eq, not_true_eq_false, if_false, tools_ecb, tools_cbc, tools_adjust, mac_mac3, bind, Except.bind, pure, Except.pure]
     cases hp : pt.getD .emv <;> simp [hp, throw, throwThe, MonadExceptOf.throw] <;>
       (cases mac3 (sk.take 8) (lastN 8 sk) d _ l <;> rfl)
   · simp [h, bind, Except.bind, throw, throwThe, MonadExceptOf.throw]
 
 theorem ac_generate_arpc_1 (sk q rc : Bytes) : Gen.ac.generate_arpc_1 sk q rc = generateArpc1 sk q rc := by
   unfold Gen.ac.generate_arpc_1 generateArpc1
-  simp only [tools_xor, rep_flatten, zeros, bind, Except.bind, pure, Except.pure]
+  simp only [tools_xor, rep_flatten, zeros, tools_ecb, tools_cbc, tools_adjust, mac_mac3, bind, Except.bind, pure, Except.pure]
   repeat (first | rfl | split)
   all_goals simp_all
 
 theorem ac_generate_arpc_2 (sk q csu : Bytes) (p : Option Bytes) : Gen.ac.generate_arpc_2 sk q csu p = generateArpc2 sk q csu p := by
   unfold Gen.ac.generate_arpc_2 generateArpc2
-  simp only [bind, Except.bind, pure, Except.pure]
+  simp only [tools_ecb, tools_cbc, tools_adjust, mac_mac3, bind, Except.bind, pure, Except.pure]
   repeat (first | rfl | split)
   all_goals simp_all
 
@@ -84,14 +127,14 @@ theorem ac_generate_arpc_2 (sk q csu : Bytes) (p : Option Bytes) : Gen.ac.genera
 theorem kd_derive_icc_mk_a (k : Bytes) (pan : StrOrBytes) (psn : Option StrOrBytes) :
     Gen.kd.derive_icc_mk_a k pan psn = deriveIccMkA k pan psn := by
   unfold Gen.kd.derive_icc_mk_a deriveIccMkA keyFromData psnTextR
-  simp only [tools_xor, rep_flatten, bind, Except.bind, pure, Except.pure]
+  simp only [tools_xor, rep_flatten, tools_ecb, tools_cbc, tools_adjust, mac_mac3, bind, Except.bind, pure, Except.pure]
   repeat (first | rfl | split)
   all_goals simp_all
 
 theorem kd_derive_icc_mk_b (k : Bytes) (pan : StrOrBytes) (psn : Option StrOrBytes) :
     Gen.kd.derive_icc_mk_b k pan psn = deriveIccMkB k pan psn := by
   unfold Gen.kd.derive_icc_mk_b deriveIccMkB keyFromData psnTextR bcdPanPsn selectDigits pyMod
-  simp only [kd_derive_icc_mk_a, tools_xor, rep_flatten, bind, Except.bind, pure, Except.pure]
+  simp only [kd_derive_icc_mk_a, tools_xor, rep_flatten, tools_ecb, tools_cbc, tools_adjust, mac_mac3, bind, Except.bind, pure, Except.pure]
   by_cases h : pan.len ≤ 16
   · simp only [h, if_true]
     repeat (first | rfl | split)
@@ -134,13 +177,13 @@ theorem kd_derive_icc_mk_b (k : Bytes) (pan : StrOrBytes) (psn : Option StrOrByt
 
 theorem kd_derive_common_sk (mk r : Bytes) : Gen.kd.derive_common_sk mk r = deriveCommonSk mk r := by
   unfold Gen.kd.derive_common_sk deriveCommonSk
-  simp only [bind, Except.bind, pure, Except.pure]
+  simp only [tools_ecb, tools_cbc, tools_adjust, mac_mac3, bind, Except.bind, pure, Except.pure]
   repeat (first | rfl | split)
   all_goals simp_all
 
 theorem kd_derive_visa_sm_sk (mk atc : Bytes) : Gen.kd.derive_visa_sm_sk mk atc = deriveVisaSmSk mk atc := by
   unfold Gen.kd.derive_visa_sm_sk deriveVisaSmSk
-  simp only [tools_xor, rep_flatten, zeros, bind, Except.bind, pure, Except.pure]
+  simp only [tools_xor, rep_flatten, zeros, tools_ecb, tools_cbc, tools_adjust, mac_mac3, bind, Except.bind, pure, Except.pure]
   repeat (first | rfl | split)
   all_goals simp_all
 
@@ -148,14 +191,14 @@ theorem kd_derive_visa_sm_sk (mk atc : Bytes) : Gen.kd.derive_visa_sm_sk mk atc 
 
 theorem sm_generate_command_mac (sk c : Bytes) (l : Option Nat) : Gen.sm.generate_command_mac sk c l = generateCommandMac sk c l := by
   unfold Gen.sm.generate_command_mac generateCommandMac
-  simp only [bind, Except.bind, pure, Except.pure]
+  simp only [tools_ecb, tools_cbc, tools_adjust, mac_mac3, bind, Except.bind, pure, Except.pure]
   repeat (first | rfl | split)
   all_goals simp_all
 
 theorem sm_encrypt_command_data (sk d : Bytes) (t : EncryptionType) :
     Gen.sm.encrypt_command_data sk d t = encryptCommandData sk d t := by
   unfold Gen.sm.encrypt_command_data encryptCommandData pyMod
-  simp only [mac_pad2, bind, Except.bind, pure, Except.pure]
+  simp only [mac_pad2, tools_ecb, tools_cbc, tools_adjust, mac_mac3, bind, Except.bind, pure, Except.pure]
   by_cases h : sk.length = 16
   · simp only [h, ne_eq, not_true_eq_false, if_false]
     cases t <;> simp [throw, throwThe, MonadExceptOf.throw] <;> repeat (first | rfl | split) <;> simp_all
@@ -163,14 +206,14 @@ theorem sm_encrypt_command_data (sk d : Bytes) (t : EncryptionType) :
 
 theorem sm_format_iso2 (p : StrOrBytes) : Gen.sm.format_iso9564_2_pin_block p = formatIso2PinBlock p := by
   unfold Gen.sm.format_iso9564_2_pin_block formatIso2PinBlock
-  simp only [rep_flatten, bind, Except.bind, pure, Except.pure]
+  simp only [rep_flatten, tools_ecb, tools_cbc, tools_adjust, mac_mac3, bind, Except.bind, pure, Except.pure]
   repeat (first | rfl | split)
   all_goals simp_all
 
 theorem sm_format_vis (mk : Bytes) (p : StrOrBytes) (c : Option StrOrBytes) :
     Gen.sm.format_vis_pin_block mk p c = formatVisPinBlock mk p c := by
   unfold Gen.sm.format_vis_pin_block formatVisPinBlock
-  simp only [tools_xor, rep_flatten, zeros, bind, Except.bind, pure, Except.pure]
+  simp only [tools_xor, rep_flatten, zeros, tools_ecb, tools_cbc, tools_adjust, mac_mac3, bind, Except.bind, pure, Except.pure]
   by_cases g1 : p.len < 4 ∨ p.len > 12
   · simp [g1, throw, throwThe, MonadExceptOf.throw]
   by_cases g2 : mk.length = 16
@@ -207,7 +250,7 @@ theorem sm_format_vis (mk : Bytes) (p : StrOrBytes) (c : Option StrOrBytes) :
 
 theorem cvv_generate_cvc3 (k t a u : Bytes) : Gen.cvv.generate_cvc3 k t a u = generateCvc3 k t a u := by
   unfold Gen.cvv.generate_cvc3 generateCvc3
-  simp only [bind, Except.bind, pure, Except.pure]
+  simp only [tools_ecb, tools_cbc, tools_adjust, mac_mac3, bind, Except.bind, pure, Except.pure]
   repeat (first | rfl | split)
   all_goals simp_all
 
